@@ -18,7 +18,7 @@ import (
 
 // C16 — one-shot and graceful stops finish the work; every stop terminates.
 
-func init() { register("C16", runC16) }
+func init() { register("C16", func(c *Ctx) { runC16(c); runC16Restart(c) }) }
 
 type wsFile struct {
 	Name string `json:"name"`
